@@ -504,13 +504,26 @@ func (e *SymEnv) Eval(x ast.Expr) Aff {
 		}
 		if name == "append" && len(v.Args) == 2 && v.Ellipsis != token.NoPos {
 			// append(make([]T, 0, N), xs...): a fresh slice of length len(xs), capacity N, holding a copy of xs
+			// append(xs[:0:0], ys...): zero capacity forces a fresh allocation
+			if sl, ok := ast.Unparen(v.Args[0]).(*ast.SliceExpr); ok && sl.Slice3 && sl.Max != nil && sl.High != nil {
+				if mx, ok := p.ConstInt(sl.Max); ok && mx == 0 {
+					if e.makes == nil {
+						e.makes = map[string][2]Aff{}
+					}
+					e.makes[as[0]] = [2]Aff{affK(0), affK(0)}
+				}
+			}
 			if mk, ok := e.makes[as[0]]; ok && mk[0].IsConst() && mk[0].K == 0 {
 				src := e.Eval(v.Args[1])
 				ln := affAtom("len(" + src.String() + ")")
 				if m2, ok := e.makes[src.String()]; ok {
 					ln = m2[0]
 				}
-				e.makes[res.String()] = [2]Aff{ln, mk[1]}
+				cp := mk[1]
+				if cp.IsConst() && cp.K == 0 {
+					cp = ln
+				}
+				e.makes[res.String()] = [2]Aff{ln, cp}
 				if e.copies == nil {
 					e.copies = map[string]string{}
 				}
@@ -759,6 +772,9 @@ func (p *GoProg) execAssign(sp *SymPath, env *SymEnv, s *ast.AssignStmt, at int)
 			// a (pointer to a) struct literal: its fields are known
 			if s.Tok == token.ASSIGN || s.Tok == token.DEFINE {
 				p.bindLiteralFields(env, t, s.Rhs[k])
+				if a, ok := v.SingleAtom(); ok && a != t && (strings.HasPrefix(a, "&lit:") || strings.HasPrefix(a, "lit:")) {
+					p.bindLiteralFields(env, a, s.Rhs[k])
+				}
 			}
 		}
 		return
